@@ -65,3 +65,4 @@ def run(P, R, tier):
 
 
 EXPLANATION += ' Also: (HIST) no module-level, class-level or default-argument container is mutated by any function of the package: nothing outlives a call that a later training could read.'
+EXPLANATION += ' (HIST.H1) a memoised function is exempt only when it is value-keyed by construction (pure function of scalars returning a scalar); (TRAP.by-position) runs of an order that sorts the labels are classes, runs of the given order are not.'
